@@ -325,7 +325,13 @@ impl Prop for C14 {
                                     _ => outcome_key(&xa.outcome),
                                 };
                                 if ea != eb {
-                                    let kind = if super::c09::observed_exchange(&xa.log).iter().map(|c| c.addr).collect::<Vec<_>>() != super::c09::observed_exchange(&xb.log).iter().map(|c| c.addr).collect::<Vec<_>>() { "destination" } else { "requests" };
+                                    let (oa, ob) = (super::c09::observed_exchange(&xa.log), super::c09::observed_exchange(&xb.log));
+                                    // the one documented exception: only the port of the Bedrock (UDP) attempt of the auto-detecting Minecraft query differs
+                                    let only_bedrock_port = oa.len() == ob.len()
+                                        && oa.iter().zip(&ob).all(|(a, b)| a.tcp == b.tcp && a.sends == b.sends && a.addr.ip() == b.addr.ip() && (a.addr.port() == b.addr.port() || !a.tcp));
+                                    let kind = if only_bedrock_port && matches!(fam, Family::McAuto) {
+                                        "destination:bedrock-attempt-port-only"
+                                    } else if super::c09::observed_exchange(&xa.log).iter().map(|c| c.addr).collect::<Vec<_>>() != super::c09::observed_exchange(&xb.log).iter().map(|c| c.addr).collect::<Vec<_>>() { "destination" } else { "requests" };
                                     ctx.violation(format!("paths-disagree:{kind}:{family}:generic-vs-module"), &[], format!("{label}: {cfg}"), format!("generic: {ea}"), format!("games::{}: {eb}", module_of(id)), render_log(&xb.log));
                                 } else if a_out != outcome_key(&xb.outcome) && id != "battalion1944" {
                                     ctx.violation(format!("paths-disagree:result:{family}:generic-vs-module"), &[], format!("{label}: {cfg}"), clip(&format!("generic: {a_out}"), 700), clip(&format!("games::{}: {}", module_of(id), outcome_key(&xb.outcome)), 700), render_log(&xb.log));
